@@ -3,7 +3,7 @@
    exactly when the model refuses (unknown endpoint or no edge), and otherwise all five fields represent the model's next state. *)
 From Coq Require Import ZArith List Lia Bool Arith Permutation.
 Import ListNotations.
-From CF Require Import ZSum ListAux Defs Core Machines GraphLink MachinesLink OrientLink PyDict ImpRep TranslatedImpCFOrientation.
+From CF Require Import ZSum ListAux Defs Core Machines GraphLink MachinesLink OrientLink PyDict ImpRep TranslatedImpCFDivisor ImpLinkArith TranslatedImpCFGraph TranslatedImpCFOrientation.
 Open Scope Z_scope.
 
 Definition rep_orient (oo : dictD) (g : graph) (s : ostate) : Prop :=
@@ -223,3 +223,64 @@ Theorem is_sink_refines a b : CFOrientation_is_sink gg oo a b =
   if edge_ok a b then PyOk (if dir_at s a b =? 0 then None else Some (dir_at s a b =? 2)) else PyExn tt.
 Proof. unfold CFOrientation_is_sink. reader_prefix a b. destruct (dir_at s a b =? 0); reflexivity. Qed.
 End OR.
+
+(* ---- divisor() and canonical_divisor(), translated from the current source: the list [(v, in-degree(v) - 1)] resp. [(v, valence(v) - 2)] over the vertex set, handed to
+   the translated CFDivisor constructor; divisor() first makes sure that fullness has been checked and refuses an orientation that is not full ---- *)
+Section OD.
+Variable g : graph.
+Hypothesis Hwf : wfb g = true.
+Variable gg : dictD.
+Hypothesis Hgg : rep_graph gg g.
+Variable vs : list nat.
+Hypothesis Hvs : rep_vset (nv g) vs.
+Hypothesis Hnd : NoDup vs.
+Variable so : list nat -> list nat.
+Hypothesis Hso : forall l, Permutation (so l) l.
+Local Notation n := (nv g).
+
+Definition od_body (st : bool * bool) (ind : list (nat * Z)) (acc_ : pyres (bool * bool) (list (nat * Z))) (vertex : nat) : pyres (bool * bool) (list (nat * Z)) :=
+  match acc_ with PyExn e_ => PyExn e_ | PyOk divisor_degrees =>
+  match d_find vertex ind with None => PyExn st | Some t1_ =>
+  let degree := (t1_ - 1) in let divisor_degrees := divisor_degrees ++ [(vertex, degree)] in PyOk divisor_degrees end end.
+Lemma od_loop st ind I : rep_div n ind I -> forall L, (forall v, In v L -> (v < n)%nat) -> forall l0,
+  fold_left (od_body st ind) L (PyOk l0) = PyOk (l0 ++ map (fun v => (v, nthZ I v - 1)) L).
+Proof. intros (_ & _ & Hf). induction L as [|x L IH]; intros HL l0; cbn [fold_left map]; [now rewrite app_nil_r|]. unfold od_body at 2. rewrite (Hf x).
+  assert (E : Nat.ltb x n = true) by (apply Nat.ltb_lt, HL; now left). rewrite E. cbn zeta. rewrite IH by (intros v Hv; apply HL; now right). rewrite <- app_assoc. reflexivity. Qed.
+Lemma in_so_lt v : In v (so vs) -> (v < n)%nat.
+Proof. intros Hv. apply (Permutation_in _ (Hso vs)) in Hv. apply s_mem_In in Hv. rewrite (Hvs v) in Hv. apply Nat.ltb_lt. exact Hv. Qed.
+
+Theorem divisor_refines oo s ind : rep_orient oo g s -> rep_div n ind (inc s) ->
+  let s' := ensure_checked g s in
+  match CFOrientation_divisor (is_full_checked s) (is_full s) vs gg oo ind so with
+  | PyOk ((dd, t), (isf', isfc')) => is_full s' = true /\ isf' = is_full s' /\ isfc' = is_full_checked s' /\
+                                     rep_div n dd (tab n (fun v => nthZ (inc s') v - 1)) /\ t = zsum (fun v => nthZ (inc s') v - 1) (seq 0 n)
+  | PyExn (isf', isfc') => is_full s' = false /\ isf' = is_full s' /\ isfc' = is_full_checked s' end.
+Proof. intros Ho Hi. unfold CFOrientation_divisor.
+  assert (Hst : (if negb (is_full_checked s) then
+      match CFOrientation_check_fullness (is_full s) (is_full_checked s) vs gg oo so with
+      | PyExn (a, b) => PyExn (a, b) | PyOk (_, (a, b)) => PyOk (a, b) end else PyOk (is_full s, is_full_checked s))
+     = (PyOk (is_full (ensure_checked g s), is_full_checked (ensure_checked g s)) : pyres (bool * bool) (bool * bool)) /\ inc (ensure_checked g s) = inc s).
+  { unfold ensure_checked. destruct (is_full_checked s) eqn:Ec; cbn [negb]; [rewrite Ec; split; reflexivity|].
+    rewrite (check_fullness_refines g Hwf gg Hgg oo s Ho (is_full s) false vs so Hvs Hso). split; reflexivity. }
+  destruct Hst as [Hst Hinc]. cbv zeta. rewrite Hinc. unfold dictZ in *. rewrite Hst. destruct (is_full (ensure_checked g s)) eqn:Ef; cbn [negb]; [|repeat split; reflexivity].
+  change (fold_left _ (so vs) (PyOk [])) with (fold_left (od_body (true, is_full_checked (ensure_checked g s)) ind) (so vs) (PyOk [])).
+  rewrite (od_loop _ ind (inc s) Hi (so vs) in_so_lt []). cbn [app].
+  destruct (fun_ctor g gg Hgg vs Hvs Hnd so Hso (fun v => nthZ (inc s) v - 1)) as (dd' & H1 & H2). unfold dictZ in *. rewrite H1. split; [reflexivity|]. split; [reflexivity|]. split; [reflexivity|]. split; [exact H2|reflexivity]. Qed.
+
+Definition cd_body (vtv : list (nat * Z)) (acc_ : pyres unit (list (nat * Z))) (vertex : nat) : pyres unit (list (nat * Z)) :=
+  match acc_ with PyExn e_ => PyExn e_ | PyOk canonical_degrees =>
+  match CFGraph_get_valence vtv vertex with PyExn _ => PyExn tt | PyOk t1_ =>
+  let valence := t1_ in let degree := (valence - 2) in let canonical_degrees := canonical_degrees ++ [(vertex, degree)] in PyOk canonical_degrees end end.
+Lemma cd_loop vtv V : rep_div n vtv V -> forall L, (forall v, In v L -> (v < n)%nat) -> forall l0,
+  fold_left (cd_body vtv) L (PyOk l0) = PyOk (l0 ++ map (fun v => (v, nthZ V v - 2)) L).
+Proof. intros (_ & _ & Hf). induction L as [|x L IH]; intros HL l0; cbn [fold_left map]; [now rewrite app_nil_r|]. unfold cd_body at 2. unfold CFGraph_get_valence, d_mem. cbn zeta. rewrite (Hf x).
+  assert (E : Nat.ltb x n = true) by (apply Nat.ltb_lt, HL; now left). rewrite E. cbn [negb]. rewrite IH by (intros v Hv; apply HL; now right). rewrite <- app_assoc. reflexivity. Qed.
+Theorem canonical_divisor_refines vtv V : rep_div n vtv V -> (forall v, (v < n)%nat -> nthZ V v = valg g v) ->
+  exists dd, CFOrientation_canonical_divisor vs vtv gg so = PyOk (dd, zsum (fun v => valg g v - 2) (seq 0 n)) /\ rep_div n dd (canonical_g g).
+Proof. intros HV Hval. unfold CFOrientation_canonical_divisor. cbv zeta.
+  change (fold_left _ (so vs) (PyOk [])) with (fold_left (cd_body vtv) (so vs) (PyOk [])). unfold dictZ in *.
+  rewrite (cd_loop vtv V HV (so vs) in_so_lt []). cbn [app].
+  destruct (fun_ctor g gg Hgg vs Hvs Hnd so Hso (fun v => nthZ V v - 2)) as (dd' & H1 & H2). unfold dictZ in *. rewrite H1. exists dd'. split.
+  - f_equal. f_equal. apply zsum_ext. intros v Hv. rewrite Hval; [reflexivity|]. apply in_seq in Hv. lia.
+  - unfold canonical_g. replace (tab n (fun v => valg g v - 2)) with (tab n (fun v => nthZ V v - 2)); [exact H2|]. apply tab_ext. intros v Hv. rewrite Hval by exact Hv. reflexivity. Qed.
+End OD.
